@@ -3,8 +3,17 @@ from common import *
 
 def _args(tier, seed):
     if tier == "quick":
-        return ["-seed", seed, "-n", 1200, "-maxlen", 40, "-exh", 3, "-exhp", 4, "-conc", 10]
-    return ["-seed", seed, "-n", 20000, "-maxlen", 60, "-exh", 4, "-exhp", 6, "-conc", 60]
+        return ["-seed", seed, "-n", 1500, "-maxlen", 40, "-exh", 3, "-exhp", 4, "-conc", 10]
+    return ["-seed", seed, "-n", 12000, "-maxlen", 60, "-exh", 4, "-exhp", 6, "-conc", 60]
+
+
+def _run(spec, tier, seed):
+    # per coqc shard: a fixed cost for loading ZArith (1 s on an idle machine, >10 s on a loaded
+    # one) + about 3 ms per history to elaborate the case term; vm_compute itself is negligible
+    import vlib
+    s = dict(spec)
+    s["shard"] = 1300 if tier == "quick" else 5000
+    return vlib.standard_check(s, tier, seed)
 
 
 SPEC = dict(
@@ -12,13 +21,13 @@ SPEC = dict(
     targets=["Properties/C17.vo", "Corr/C17.vo"],
     args=_args,
     search_args=lambda seed: ["-seed", seed, "-n", 3000, "-maxlen", 40, "-exh", 0, "-exhp", 0, "-misuse=false"],
-    shard=400,
+    shard=1300, run=_run,
     patterns={},
     rule="sequential histories against the real pkg/waiter Queue, each under a watchdog (hung / panicked are reported, not suffered): "
          "boundary histories; the two contract-violating witness histories of C17_contract_needed_refuted (model-vs-code only, tag 9); "
          "ALL contract-respecting histories of exactly d operations over entries {0,1: function callback, 2: channel entry} x masks {1,2,3} x "
          "{Register, Unregister, Notify, Take} (quick: d=3 unpruned + d=4 pruned; thorough: d=4 unpruned + d=6 pruned = without the no-op moves "
-         "Notify-on-empty / Take-without-token and modulo the 0<->1 entry symmetry; prefixes are covered because an observation is taken after every operation); "
+         "Notify-on-empty / Take-without-token and modulo the symmetries function-entry 0<->1 and mask 1<->2; prefixes are covered because an observation is taken after every operation); "
          "seeded random histories of 4..maxlen operations over 3-5 entries of random kinds and 2-4 masks drawn from {1,2,3,4,5,6,0x10,0x8000,0xffff,0} "
          "(30% register, 20% unregister, 30% notify, 5% Events, 5% IsEmpty, 10% take). After every operation: the function-callback log, the return value, "
          "len(ch) of every channel entry, Events() and IsEmpty(). Non-trivial = some callback ran or some channel got a token (tag 1/2; 3/4 if the history also "
